@@ -123,7 +123,13 @@ def uninstall(saved):
     pd.md5, pd.Cipher, pd.PDFStandardSecurityHandlerV5._password_hash = saved
 
 
+EMPTY_TABLE = "(@nil (list Z * list Z))"
+
+
 def gtable(pairs):
+    pairs = list(pairs)
+    if not pairs:
+        return EMPTY_TABLE
     return glist(["(%s, %s)" % (gbytes(k), gbytes(v)) for k, v in pairs])
 
 
@@ -384,6 +390,8 @@ def rc4_or_aes(enc, objid, genno, data, is_stream):
 
 def gmixed(pairs):
     """table whose keys contain the -1 separator"""
+    if not pairs:
+        return EMPTY_TABLE
     return glist(["([%s], %s)" % ("; ".join(gz(x) for x in k), gbytes(v)) for k, v in pairs])
 
 
